@@ -144,6 +144,8 @@ impl GseDecapMemory for SimpleGseMemory {
                 if context.frag_id == frag_id {
                     Ok((context, pdu))
                 } else {
+                    // the slot holds the context of another frag id: leave it in place
+                    self.frags[idx] = Some((context, pdu));
                     Err(DecapMemoryError::UndefinedId)
                 }
             }
